@@ -434,6 +434,18 @@ class OpaqueSeq(SProto):
     def py_iter(self, I):
         raise OutOfSubset("iteration over %s" % self.what)
 
+    def comp_view(self, I, n, frame):
+        """a comprehension / generator expression over such a collection whose element expression and
+        conditions are pure (no calls): again a collection whose content only flows into messages"""
+        for g in n.generators:
+            for e in [n.elt] + list(g.ifs):
+                for x in ast.walk(e):
+                    if isinstance(x, (ast.Call, ast.Yield, ast.YieldFrom, ast.Await, ast.Lambda, ast.NamedExpr)):
+                        raise OutOfSubset("comprehension over %s with calls in it (line %d)" % (self.what, n.lineno))
+        if len(n.generators) != 1:
+            raise OutOfSubset("nested comprehension over %s" % self.what)
+        return OpaqueSeq("text built from " + self.what)
+
     def py_getattr(self, I, name):
         raise OutOfSubset("%s.%s" % (self.what, name))
 
@@ -690,6 +702,16 @@ class RegQList(RegView):
                 return SNone
 
             return SBuiltin("RegQList.insert", insert)
+        if name == "pop":
+            def pop(I, a, k):
+                # list.pop() / pop(-1): the last element, removed (same effect as `x = l[-1]; del l[-1]`)
+                if a and not (isinstance(a[0], SNum) and a[0].concrete() == -1):
+                    raise OutOfSubset("registry list .pop at an index other than -1")
+                v = self.py_getitem(I, SNum(-1))
+                self.py_delitem(I, SNum(-1))
+                return v
+
+            return SBuiltin("RegQList.pop", pop)
         raise OutOfSubset("registry list .%s" % name)
 
 
